@@ -266,3 +266,79 @@ func ZZ_H05g_PublicAPI() {
 	zzvrt.Assert(rl.ReservePermit() == twin.acquirePermits(1, -1), "limiter: public API leaves the limiter in the kernel's state")
 	zzvrt.Reach("public-api-done")
 }
+
+// H05e: bounded history through the public API from a freshly built limiter, against the property as stated
+// (no state-representation oracle): K single-permit requests at symbolic non-decreasing instants, each through
+// TryReservePermit(m_i) with a symbolic max wait m_i >= 0. A permit becomes usable at t_i + wait_i.
+// Oracle = greedy assignment over the list of permits granted so far: a permit goes to the earliest slot/period
+// at or after the request instant that is not before the previous permit's and still has room.
+func ZZ_H05e_History() {
+	K := zzvrt.Param("ops", 3)
+	bursty := zzvrt.Choose("bursty", 2) == 1
+	sw := &zzStopwatch{}
+	var rl RateLimiter[int]
+	var W time.Duration // slot / period width
+	M := 1              // permits per slot / period
+	if bursty {
+		cfg := zzBurstyCfgs[zzvrt.Choose("cfg", zzvrt.Param("bursty_cfgs", 3))]
+		rl = BurstyBuilder[int](uint(cfg.m), cfg.p).Build()
+		rl.(*rateLimiter[int]).stats.(*burstyStats[int]).stopwatch = sw
+		W, M = cfg.p, cfg.m
+	} else {
+		W = zzSmoothIntervals[zzvrt.Choose("interval", zzvrt.Param("smooth_cfgs", 3))]
+		if zzvrt.Choose("builder", 2) == 0 {
+			rl = SmoothBuilderWithMaxRate[int](W).Build()
+		} else {
+			rl = SmoothBuilder[int](4, 4*W).Build() // 4 executions per 4W = one per W
+		}
+		rl.(*rateLimiter[int]).stats.(*smoothStats[int]).stopwatch = sw
+	}
+	var us []int64 // usable instants of the permits granted so far
+	last := int64(-1)
+	lastCnt := 0
+	tPrev := int64(0)
+	for i := 0; i < K; i++ {
+		t := zzvrt.Int64("t")
+		zzvrt.Assume(t >= tPrev)
+		zzvrt.Assume(t < zzMaxT)
+		tPrev = t
+		sw.t = time.Duration(t)
+		m := zzvrt.Duration("maxWait")
+		zzvrt.Assume(m >= 0)
+		zzvrt.Assume(m < time.Duration(zzMaxT))
+		wait := rl.TryReservePermit(m)
+		// greedy reference
+		p := t / int64(W)
+		cnt := 0
+		if last >= p {
+			p, cnt = last, lastCnt
+		}
+		if cnt >= M {
+			p, cnt = p+1, 0
+		}
+		u := p * int64(W)
+		if u < t {
+			u = t
+		}
+		refWait := time.Duration(u - t)
+		if refWait > m {
+			zzvrt.Assert(wait == -1, "limiter-history: a request whose wait exceeds its max wait is refused")
+			continue // refusals cost nothing: reference state unchanged
+		}
+		zzvrt.Assert(wait == refWait, "limiter-history: each permit is granted at the earliest instant that respects the rate and the order of requests")
+		last, lastCnt = p, cnt+1
+		us = append(us, int64(t)+int64(wait))
+	}
+	// the property itself over the whole set of usable instants
+	n := len(us)
+	if n >= 2 {
+		for i := 0; i+M < n; i++ {
+			// permits are granted in order, so M+1 permits in one slot/period would be consecutive ones
+			zzvrt.Assert(us[i]/int64(W) != us[i+M]/int64(W), "limiter-history: never more than the configured permits usable within one slot/period")
+		}
+		for i := 0; i+1 < n; i++ {
+			zzvrt.Assert(us[i] <= us[i+1], "limiter-history: permits become usable in request order")
+		}
+	}
+	zzvrt.Reach("history-done")
+}
